@@ -55,3 +55,11 @@ Definition WInv (w : writer) : Prop :=
    | s :: p :: _ => w_aprev w = Some (s_pts s) /\ w_alast_delta w = Some (s_pts s - s_pts p) /\ s_dur s = None
    end) /\
   Forall (fun s => s_dts s = s_pts s) (w_arev w).
+
+(** side conditions used by the end-to-end theorems *)
+Definition samples_ok (l : list sample) : Prop :=
+  Forall (fun s => 0 < len (s_data s) /\ len (s_data s) < 4294967296) l.
+
+(* every queued sample is non-empty: the API rejects empty frames and every conversion of a
+   non-empty frame is non-empty *)
+Definition NonEmptyInv (w : writer) : Prop := samples_ok (w_vrev w) /\ samples_ok (w_arev w).
